@@ -205,10 +205,9 @@ impl C2sListener {
       "stopped accepting socket connections"
     );
 
-    self.worker_pool.take();
-
-    // Wait for the connection manager to stop.
+    // Let the connections finish while their workers are still running, then stop the workers.
     self.conn_mng.shutdown().await?;
+    self.worker_pool.take();
     self.dispatcher_factory.shutdown().await?;
 
     Ok(())
